@@ -189,7 +189,9 @@ pub fn explore(case : &Case, caps : &Caps, only : Option<(u32, Option<u32>, Opti
     }
     if let Some((idx, torn, _)) = only
     {
-        states.retain(|(i, t)| cps[*i].index == idx && *t == torn);
+        // replay: exactly the requested crash state (torn offsets of non-state files are sampled
+        // during exploration, so the candidate list of this process need not contain it)
+        states = cps.iter().enumerate().filter(|(_, c)| c.index == idx).map(|(i, _)| (i, torn)).collect();
     }
     else if caps.max_states > 0 && states.len() > caps.max_states
     {
@@ -283,7 +285,7 @@ pub fn explore(case : &Case, caps : &Caps, only : Option<(u32, Option<u32>, Opti
                     }
                     match second_only
                     {
-                        Some((i2, t2)) => idxs.retain(|(j, t)| rcps[*j].index == i2 && *t == t2),
+                        Some((i2, t2)) => { idxs = rcps.iter().enumerate().filter(|(_, q)| q.index == i2).map(|(j, _)| (j, t2)).collect(); },
                         None => { rng.shuffle(&mut idxs); idxs.truncate(caps.second_kill_states); },
                     }
                     for (j, t2) in idxs
@@ -364,7 +366,7 @@ pub fn run_one(cfg : &Config, seed : u64, k : u64, stats : &mut Stats) -> Vec<Fo
         let mut seen = BTreeSet::new();
         for f in fs
         {
-            if !seen.insert(f.v.sig.clone()) || found.iter().any(|x| x.sig == f.v.sig) { continue; }
+            if !seen.insert(f.v.sig.clone()) || found.iter().any(|x| x.sig == f.v.sig) || !stats.reported.insert(f.v.sig.clone()) { continue; }
             // minimise the history; the crash index is re-found in the smaller case
             let sig = f.v.sig.clone();
             let second_level = f.second.is_some();
@@ -378,13 +380,23 @@ pub fn run_one(cfg : &Config, seed : u64, k : u64, stats : &mut Stats) -> Vec<Fo
                     explore(cand, &Caps{ max_states : 0, torn_state_all : false, torn_samples : 1, recovery_sampled : false, second_kill_one_in : if second_level { 1 } else { 0 }, second_kill_states : if second_level { 1000 } else { 0 } }, None, &SchedSpec::serial(), &mut r, None).iter().any(|x| x.v.sig == sig)
                 }
             };
-            let small = if test(&c) { minimize_with_budget(&c, &test, if second_level { 30 } else { 120 }) } else { c.clone() };
-            let mut r = Rng::new(7);
-            let again = explore(&small, &all, None, &SchedSpec::serial(), &mut r, None);
-            let (case_final, index, torn, second, detail) = match again.into_iter().find(|x| x.v.sig == sig)
+            // a second-level finding is reported in the history that produced it (re-exploring every
+            // pair of kill points for every minimisation candidate would take minutes); a
+            // first-level one is minimised and its crash index re-found in the smaller history
+            let (case_final, index, torn, second, detail) = if second_level
             {
-                Some(x) => (small, x.index, x.torn, x.second, x.v.detail),
-                None => (c.clone(), f.index, f.torn, f.second, f.v.detail.clone()),
+                (c.clone(), f.index, f.torn, f.second, f.v.detail.clone())
+            }
+            else
+            {
+                let small = if test(&c) { minimize_with_budget(&c, &test, 40) } else { c.clone() };
+                let mut r = Rng::new(7);
+                let again = explore(&small, &all, None, &SchedSpec::serial(), &mut r, None);
+                match again.into_iter().find(|x| x.v.sig == sig)
+                {
+                    Some(x) => (small, x.index, x.torn, x.second, x.v.detail),
+                    None => (c.clone(), f.index, f.torn, f.second, f.v.detail.clone()),
+                }
             };
             found.push(Found
             {
